@@ -91,6 +91,10 @@ type opView struct {
 	wmInvoked map[int]int64
 	wmDone    map[int]int64
 	lastFired int64
+	// C02, watermarks as part of the cut: barriers this operator has been sent (invoked),
+	// per checkpoint id; checkpoints up to base were restored, not taken here
+	barInvoked map[uint64]int
+	base       uint64
 }
 
 type refModel struct {
@@ -105,6 +109,8 @@ type refModel struct {
 	views       map[string]*opView      // per operator id
 	owner       func(key []byte) string // current owner (operator id) of a key, nil = do not check
 	senders     int
+	cutWM       map[uint64][]int64 // checkpoint id -> per sender: its last watermark ahead of that barrier (0 = none)
+	bases       map[string]uint64  // operator id -> checkpoint it was last deployed from
 	sink        []string
 	invocations int
 	latency     int
@@ -112,13 +118,13 @@ type refModel struct {
 
 func newRefModel(c *sim.Ctx, senders int) *refModel {
 	return &refModel{c: c, prop: c.Prop, shadow: map[string]nsState{}, pending: map[timerKey]bool{}, processed: map[string]int{}, order: map[string][]string{},
-		views: map[string]*opView{}, senders: senders, latency: int(c.Cfg("hlat", 1))}
+		views: map[string]*opView{}, cutWM: map[uint64][]int64{}, bases: map[string]uint64{}, senders: senders, latency: int(c.Cfg("hlat", 1))}
 }
 
 func (m *refModel) view(op string) *opView {
 	v := m.views[op]
 	if v == nil {
-		v = &opView{wmInvoked: map[int]int64{}, wmDone: map[int]int64{}, lastFired: -1 << 62}
+		v = &opView{wmInvoked: map[int]int64{}, wmDone: map[int]int64{}, lastFired: -1 << 62, barInvoked: map[uint64]int{}, base: m.bases[op]}
 		m.views[op] = v
 	}
 	return v
@@ -128,6 +134,20 @@ func (m *refModel) view(op string) *opView {
 func (m *refModel) resetView(op string) {
 	m.mu.Lock()
 	delete(m.views, op)
+	m.mu.Unlock()
+}
+
+// barInvoke: a sender is about to deliver barrier id to the operator.
+func (m *refModel) barInvoke(op string, id uint64) {
+	m.mu.Lock()
+	m.view(op).barInvoked[id]++
+	m.mu.Unlock()
+}
+
+// setBase: the operator is being deployed from checkpoint id (0 = fresh).
+func (m *refModel) setBase(op string, id uint64) {
+	m.mu.Lock()
+	m.bases[op] = id
 	m.mu.Unlock()
 }
 
@@ -229,6 +249,28 @@ func (h *opHandler) ProcessEventBatch(ctx context.Context, req *handlerpb.Proces
 			class = prop + "/handler-watermark-before-first-report"
 		}
 		c.Violate(class, "operator %s told the handler watermark %s (unix %d); the minimum of its upstreams' latest watermarks can only be one of %v (unreported = epoch)", h.op, told.UTC().Format(time.RFC3339Nano), toldSec, keysInt(poss))
+	}
+
+	// --- C02, watermarks are part of the cut: until every sender has started to deliver
+	// barrier N to this operator the checkpoint cannot have been taken, a sender behind its
+	// barrier is held and one ahead of it has not passed it, so the operator's watermark
+	// cannot exceed the minimum of the senders' last watermarks ahead of barrier N
+	for id := v.base + 1; ; id++ {
+		cut, ok := m.cutWM[id]
+		if !ok {
+			break
+		}
+		if v.barInvoked[id] >= m.senders {
+			continue
+		}
+		lim := int64(1 << 62)
+		for _, x := range cut {
+			lim = min(lim, x)
+		}
+		if toldSec > lim {
+			c.Violate(prop+"/watermark-beyond-cut", "operator %s told the handler watermark %d while only %d of %d senders have started to deliver barrier %d; the senders' last watermarks ahead of that barrier are %v, so a watermark from behind a barrier was acted on before the checkpoint", h.op, toldSec, v.barInvoked[id], m.senders, id, cut)
+		}
+		break
 	}
 
 	// --- C03: supplied state == shadow, per key
